@@ -526,7 +526,7 @@ class ApplicationContextItem(object):
         :return: item length
         :rtype: int
         """
-        return len(self.context_name)
+        return len(self.context_name.encode())
 
     def encode(self):
         """Encodes item into bytes
@@ -755,7 +755,7 @@ class AbstractSyntaxSubItem(object):
         :return: item length
         :rtype: int
         """
-        return len(self.name)
+        return len(self.name.encode())
 
     def encode(self):
         """Encodes item into bytes
@@ -812,7 +812,7 @@ class TransferSyntaxSubItem(object):
         :return: item length
         :rtype: int
         """
-        return len(self.name)
+        return len(self.name.encode())
 
     def encode(self):
         """Encodes item into bytes
